@@ -64,6 +64,13 @@ func c17Data(r *rng.R) *document.TemplateData {
 		return nil
 	}
 	rows := []interface{}{map[string]interface{}{"k": gen.Word(r, 1, 4), "on": r.Bool(), "members": nested()}, map[string]interface{}{"k": gen.Word(r, 1, 4), "on": r.Bool(), "members": nested()}}
+	if r.Chance(1, 3) {
+		// field values that spell the placeholder of another field of the same item: still values, whatever order the fields are
+		// looked at in
+		rows[0].(map[string]interface{})["k"] = "{{k2}}"
+		rows[0].(map[string]interface{})["k2"] = "{{k}} " + gen.Word(r, 1, 3)
+		rows[1].(map[string]interface{})["k2"] = "{{on}}{{k}}"
+	}
 	// rows as they come out of a CSV reader or a form (all strings), a row that is no map at all
 	switch r.Intn(5) {
 	case 0:
@@ -171,6 +178,16 @@ func c17BaseDoc(seed uint64, workDir string) *document.Document {
 	}
 	if r.Chance(3, 4) {
 		s.Doc.AddParagraph("{{#image pic}}")
+	}
+	if r.Chance(1, 3) {
+		// loops in the body: over three paragraphs and inside one paragraph
+		if r.Bool() {
+			s.Doc.AddParagraph("{{#each rows}}")
+			s.Doc.AddParagraph("item {{k}} / {{k2}} / {{on}}")
+			s.Doc.AddParagraph("{{/each}}")
+		} else {
+			s.Doc.AddParagraph("list: {{#each rows}}[{{k}}|{{k2}}]{{/each}} end")
+		}
 	}
 	return s.Doc
 }
